@@ -13,17 +13,31 @@ def T(k, w=1):
 
 BIT = T("bit")
 
+def TA(el, n):
+    """cohdl.Array[el, n]; the default of an array object is 0 = Null (every element zero) or absent"""
+    return {"k": "arr", "w": n, "el": el}
+
+def TE(n):
+    """an enumeration with the n literals e0 .. e<n-1> (class En<n> of the generated module header)"""
+    return {"k": "enum", "w": n}
+
 def ty_py(ty):
     k = ty["k"]
     if k == "bit":
         return "Bit"
     if k == "bool":
         return "bool"
+    if k == "arr":
+        return f"Array[{ty_py(ty['el'])}, {ty['w']}]"
+    if k == "enum":
+        return f"En{ty['w']}"
     return {"bv": "BitVector", "u": "Unsigned", "s": "Signed"}[k] + f"[{ty['w']}]"
 
 def lit_py(ty, v):
     """python expression constructing the literal value v (an int pattern) of type ty"""
     k = ty["k"]
+    if k == "enum":
+        return f"En{ty['w']}.e{v}"
     if k == "bit":
         return f"Bit({int(v)})"
     if k == "bool":
@@ -42,6 +56,11 @@ def lit_py(ty, v):
 
 def default_py(ty, v):
     k = ty["k"]
+    if k == "arr":
+        assert v == 0
+        return "Null"
+    if k == "enum":
+        return f"En{ty['w']}.e{v}"
     if k == "bit":
         return "True" if v else "False"
     if k == "bool":
@@ -464,8 +483,27 @@ class Printer:
 
 HEADER = """from __future__ import annotations
 import cohdl
-from cohdl import Bit, BitVector, Unsigned, Signed, Port, Signal, Variable, Null, Full
+from cohdl import Bit, BitVector, Unsigned, Signed, Port, Signal, Variable, Null, Full, Array
 from cohdl import std
+from cohdl import enum as _cenum
+
+
+class En2(_cenum.Enum):
+    e0 = _cenum.auto()
+    e1 = _cenum.auto()
+
+
+class En3(_cenum.Enum):
+    e0 = _cenum.auto()
+    e1 = _cenum.auto()
+    e2 = _cenum.auto()
+
+
+class En4(_cenum.Enum):
+    e0 = _cenum.auto()
+    e1 = _cenum.auto()
+    e2 = _cenum.auto()
+    e3 = _cenum.auto()
 
 """
 
